@@ -187,6 +187,11 @@ def load_obj(
         # ensure the name is always unique
         name = util.unique_name(name, geometry)
 
+        if maintain_order and len(faces) > 0 and faces.max() >= len(v):
+            # keeping the order builds masks as long as the largest index
+            # so refuse indexes past the end of the vertices up front
+            raise IndexError("face references a vertex which does not exist")
+
         # try to get usable texture
         mesh = kwargs.copy()
         if faces_tex is not None:
